@@ -28,6 +28,9 @@ type Pop struct {
 	lastOp       string
 	h            uint64
 	pendingProbe *aliasSuspect
+	// lowKeys: every bitmap of the case lives in chunks 0..3, so that the size bounds (which allow 9 bytes per
+	// POSSIBLE chunk below the maximum) have almost no slack
+	lowKeys bool
 }
 
 type aliasSuspect struct {
@@ -40,7 +43,7 @@ func newPop(c *Ctx, mode PopMode) *Pop {
 	if mode.MaxLive == 0 {
 		mode.MaxLive = 7
 	}
-	return &Pop{c: c, mode: mode}
+	return &Pop{c: c, mode: mode, lowKeys: mode.SizeBound && c.R.Chance(0.7)}
 }
 
 func (p *Pop) add(bm *BM) int {
@@ -85,9 +88,16 @@ func (p *Pop) genFresh() *BM {
 		// a shared small key universe makes chunk collisions between bitmaps likely
 		o.Keys = []uint64{0, 1, 2, 3, 0xFFFE, 0xFFFF}
 	}
+	if p.lowKeys {
+		o.Keys = []uint64{0, 1, 2, 3}
+	}
 	if p.mode.RunBias && r.Chance(0.6) {
 		m := NewISet()
-		for _, k := range genKeys(r, 1+r.Intn(3)) {
+		ks := genKeys(r, 1+r.Intn(3))
+		if p.lowKeys {
+			ks = []uint64{0, 1, 2, 3}[:1+r.Intn(3)]
+		}
+		for _, k := range ks {
 			a := []string{"oneRun", "fewRuns", "manyShortRuns", "runsTouchEdges", "full", "fullMinusFew", "denseLow", "arr4096runs"}[r.Intn(8)]
 			for _, v := range genChunk(r, a) {
 				m.AddRange(k<<16|v.Lo, k<<16|v.Hi)
@@ -221,6 +231,12 @@ func (p *Pop) create(op string) {
 	case "Flip":
 		a := p.pick()
 		s, e := genRange(r, p.live[a].M, true, false)
+		if p.lowKeys && e > 4<<16 {
+			e = 4 << 16
+			if s >= e {
+				s = e - 1 - r.Range(0, 70000)
+			}
+		}
 		c.Step("b%d = Flip(%s,%d,%d)", p.nextName, p.name(a), s, e)
 		c.Guard(sig, func() { res = roaring.Flip(p.live[a].B, s, e) })
 		want = p.live[a].M.Clone()
@@ -228,7 +244,7 @@ func (p *Pop) create(op string) {
 	case "AddOffset":
 		a := p.pick()
 		d := genOffset(r, p.live[a].M)
-		if r.Chance(0.5) {
+		if r.Chance(0.5) || p.lowKeys {
 			d = int64(r.Range(0, 140000)) - 70000
 		}
 		c.Step("b%d = AddOffset64(%s,%d)", p.nextName, p.name(a), d)
@@ -343,6 +359,9 @@ func (p *Pop) mutate(op string) {
 	case "Mutate":
 		c.Step("on %s:", p.name(x))
 		o := MutOpts{Light: true, COWToggle: !X.ZC, NoClone: true, Sig: "mutate/"}
+		if p.lowKeys {
+			o.MaxVal = 4<<16 - 1
+		}
 		if p.mode.RunBias {
 			o.OnlyOps = []string{"AddRange", "RemoveRange", "Flip", "Remove", "Add", "RunOptimize", "CheckedRemove"}
 		}
